@@ -314,6 +314,17 @@ def base_bytes(name):
         elif name == "minimal-nocore":
             _BYTES[name] = _strip_core_part(base_bytes("minimal"))
             return _BYTES[name]
+        elif name == "minimal-lean":
+            # a core-properties part as a frugal producer writes it: the root declares ONLY the namespaces it uses
+            # (no dcterms, no xsi until a date is there); harness-built
+            members = F.zip_members(base_bytes("minimal"))
+            pn = core_part_of(base_bytes("minimal"))[0]
+            members[pn[1:]] = (b'<?xml version="1.0" encoding="UTF-8" standalone="yes"?>\n'
+                               b'<cp:coreProperties xmlns:cp="http://schemas.openxmlformats.org/package/2006/metadata/core-properties" '
+                               b'xmlns:dc="http://purl.org/dc/elements/1.1/"><dc:title>lean</dc:title>'
+                               b'<cp:revision>3</cp:revision></cp:coreProperties>')
+            _BYTES[name] = F.write_zip(members)
+            return _BYTES[name]
         else:
             path = os.path.join(F.REPO, name)
         _BYTES[name] = F.read_bytes(path)
@@ -930,7 +941,7 @@ def assign_cases(thorough):
                         cases.append({"kind": "assign", "base": base, "ops": [[p, s_spec(cls, n)]]})
         for spec in NONSTR_FOR_STRING:
             cases.append({"kind": "assign", "base": "minimal", "ops": [[p, spec]]})
-    for base in ("default", "nocore"):
+    for base in ("default", "nocore", "minimal-lean"):
         for p in DATE_PROPS:
             for spec in DATE_VALUES:
                 cases.append({"kind": "assign", "base": base, "ops": [[p, spec]]})
@@ -948,7 +959,7 @@ def assign_cases(thorough):
                               "cycles": 2 if thorough else 1})
     nl = len(lengths)
     exp_single = (len(STRING_PROPS) * (len(CLASS_ORDER) * (nl + (2 * len(BOUNDARY_LENGTHS) if thorough else 0)) + len(NONSTR_FOR_STRING))
-                  + 2 * (len(DATE_PROPS) * len(DATE_VALUES) + len(REVISION_VALUES) + 1))
+                  + 3 * (len(DATE_PROPS) * len(DATE_VALUES) + len(REVISION_VALUES) + 1))
     per_prop = 4 if thorough else 3
     exp_pairs = len(pair_bases) * (15 * per_prop) ** 2
     if n_single != exp_single or len(cases) - n_single != exp_pairs:
